@@ -94,6 +94,15 @@ func (f *Flow) inlineOf(e Event) (res *inlined) {
 		f.inl[e.Call] = in
 		return in
 	}
+	// a call of a local closure: `fail := func(err error) T {…}; …; return fail(e)` (defined once, never reassigned)
+	if v, isVar := e.Callee.(*types.Var); isVar && !v.IsField() {
+		if lit := f.closureOf(v); lit != nil {
+			in := f.inlineLit(e, lit)
+			f.inl[e.Call] = in
+			return in
+		}
+		return nil
+	}
 	fnObj, ok := e.Callee.(*types.Func)
 	if !ok {
 		dbgInl(98)
@@ -414,4 +423,57 @@ func dbgInl(line int) {
 	if os.Getenv("COERLINT_DEBUGINL") != "" {
 		fmt.Fprintf(os.Stderr, "  INL-REJECT at inline.go:%d\n", line)
 	}
+}
+
+// closureOf: the function literal a local variable is defined with, if that is its only definition and
+// it is never assigned again or address-taken (looked up in the declared function the flow belongs to).
+func (f *Flow) closureOf(v *types.Var) *ast.FuncLit {
+	if f.self == nil || f.self.Decl.Body == nil {
+		return nil
+	}
+	if f.P.closures == nil {
+		f.P.closures = map[*Func]map[*types.Var]*ast.FuncLit{}
+	}
+	m, ok := f.P.closures[f.self]
+	if !ok {
+		m = map[*types.Var]*ast.FuncLit{}
+		info := f.self.Pkg.TypesInfo
+		writes := map[*types.Var]int{}
+		ast.Inspect(f.self.Decl.Body, func(n ast.Node) bool {
+			switch x := n.(type) {
+			case *ast.AssignStmt:
+				for i, l := range x.Lhs {
+					id, ok := ast.Unparen(l).(*ast.Ident)
+					if !ok {
+						continue
+					}
+					if d, ok := info.Defs[id].(*types.Var); ok && x.Tok == token.DEFINE && len(x.Rhs) == len(x.Lhs) {
+						if lit, ok := ast.Unparen(x.Rhs[i]).(*ast.FuncLit); ok {
+							m[d] = lit
+							continue
+						}
+					}
+					if u, ok := info.Uses[id].(*types.Var); ok {
+						writes[u]++
+					}
+				}
+			case *ast.UnaryExpr:
+				if x.Op == token.AND {
+					if id, ok := ast.Unparen(x.X).(*ast.Ident); ok {
+						if u, ok := info.Uses[id].(*types.Var); ok {
+							writes[u]++
+						}
+					}
+				}
+			}
+			return true
+		})
+		for d := range m {
+			if writes[d] > 0 {
+				delete(m, d)
+			}
+		}
+		f.P.closures[f.self] = m
+	}
+	return m[v]
 }
